@@ -13,8 +13,10 @@ EXTENDS Naturals, FiniteSets, TLC, Json
 \* "chain_X_with_caY": an identity *file* (PEM, expressible with the client builder) holding the peer's own
 \* certificate of set X followed by the CA certificate of set Y: extra certificates in one's own identity
 \* never widen what one trusts.
+\* "stolen_cert_X": a copy of somebody else's certificate of set X, presented with a key of one's own
+\* (no proof of possession: the CA never certified this peer)
 ClientIds == {"trusted", "other_ca", "self_signed", "none", "borrowed_chain_self", "borrowed_chain_other",
-              "chain_T_with_caO", "chain_O_with_caT"}
+              "chain_T_with_caO", "chain_O_with_caT", "stolen_cert_T", "stolen_cert_O"}
 \* a server has a certificate of one set and accepts clients certified by one set (the bundled generator
 \* makes them the same set; an operator need not)
 ServerIds == {"trusted", "other_ca", "cert_O_accepts_T", "cert_T_accepts_O"}
